@@ -81,9 +81,23 @@ def r_optkey(prog, tier):
             continue
         cfg = f.cfg
         parents = None
+        # names that run over a literal tuple / list of option names: `[o in params for o in ('always_label', 'always_gf')]`
+        literal_runs = {}
+        for x_ in ast.walk(f.node):
+            gens_ = x_.generators if isinstance(x_, (ast.ListComp, ast.SetComp, ast.GeneratorExp, ast.DictComp)) else (
+                [x_] if isinstance(x_, ast.For) else [])
+            for g_ in gens_:
+                if isinstance(g_.target, ast.Name) and isinstance(g_.iter, (ast.Tuple, ast.List)) and g_.iter.elts \
+                        and all(const_str(e_) is not None for e_ in g_.iter.elts):
+                    literal_runs.setdefault(g_.target.id, []).append([const_str(e_) for e_ in g_.iter.elts])
         for t in key_tests(f):
             ntests += 1
             k = const_str(t.left)
+            if k is None and isinstance(t.left, ast.Name) and len(literal_runs.get(t.left.id, ())) == 1 and not any(
+                    isinstance(y_, ast.Name) and y_.id == t.left.id and isinstance(y_.ctx, ast.Store) and not any(
+                        y_ is z_ for g2_ in ast.walk(f.node) if isinstance(g2_, (ast.For, ast.comprehension)) for z_ in ast.walk(g2_.target))
+                    for y_ in ast.walk(f.node)):
+                k = '|'.join(literal_runs[t.left.id][0])
             obs.append(Ob('R-OPTKEY/K1', f.fq, 'option test `%s` looks up a literal key' % unparse(t),
                           k is not None, 'key %r' % k if k is not None else
                           'the left operand is not a string literal: the *value* of `%s` is looked up among '
@@ -157,6 +171,38 @@ def r_optkey(prog, tier):
                     why = 'PROTOCOL table: ' + PROTOCOL[f.fq]
                 obs.append(Ob('R-OPTKEY/K2', f.fq, 'option load `%s` happens only when the option is present'
                               % unparse(n), ok, why, construct='k2:' + unparse(n), line=n.lineno))
+    # K4: one option, one way of asking: `'k' in kw` (given at all) in one place and `kw.get('k')` (given and true) in another
+    # disagree for `k:0` / `k=False` - one decision is taken as if the option were set, the other as if it were not
+    for f in prog.all_funcs():
+        if not f.kwarg:
+            continue
+        by_presence, by_value = {}, {}
+        for x in walk_own(f.node):
+            if isinstance(x, ast.Compare) and len(x.ops) == 1 and isinstance(x.ops[0], (ast.In, ast.NotIn)) \
+                    and const_str(x.left) is not None and isinstance(x.comparators[0], ast.Name) and x.comparators[0].id == f.kwarg:
+                by_presence.setdefault(const_str(x.left), x)
+        conds = []
+        for x in walk_own(f.node):
+            if isinstance(x, (ast.If, ast.While, ast.IfExp)):
+                conds.append(x.test)
+        for t in conds:
+            parts = [t]
+            while parts:
+                e = parts.pop()
+                if isinstance(e, ast.BoolOp):
+                    parts.extend(e.values)
+                elif isinstance(e, ast.UnaryOp) and isinstance(e.op, ast.Not):
+                    parts.append(e.operand)
+                elif isinstance(e, ast.Call) and isinstance(e.func, ast.Attribute) and e.func.attr == 'get' \
+                        and isinstance(e.func.value, ast.Name) and e.func.value.id == f.kwarg and e.args and const_str(e.args[0]) is not None \
+                        and (len(e.args) == 1 or (isinstance(e.args[1], ast.Constant) and not e.args[1].value)):
+                    by_value.setdefault(const_str(e.args[0]), e)
+        for k in sorted(set(by_presence) & set(by_value)):
+            obs.append(Ob('R-OPTKEY/K4', f.fq, 'option %r is asked for in one way throughout the function' % k, False,
+                          '`%s` (line %d) asks whether the option is given, `%s` (line %d) whether its value is true: with %s:0 (or '
+                          '%s=False) the two decisions contradict each other' % (unparse(by_presence[k]), by_presence[k].lineno,
+                                                                                   unparse(by_value[k]), by_value[k].lineno, k, k),
+                          construct='k4:%s' % k, line=by_value[k].lineno))
     # K3: forwarding inside the reader / writer call trees
     memo = {}
     documented = {'treeinput': set(prog.registry('treeinput', 'INPUT_OPTIONS')),
